@@ -21,7 +21,9 @@ pub struct C10 {
 const SCALARS_PER_PLAN: u64 = 64;
 /// long lines of multi-unit characters at every small offset: a multi-unit character straddles every internal block
 /// boundary (any power-of-two index) for at least one offset
-const STRADDLE_PLANS: u64 = 8 * 5;
+const STRADDLE_PLANS: u64 = 8 * 5 + SHORT_TEXTS;
+/// every text of length <= 4 over {NUL, 'o', '[', LF, U+00E9, U+4E0A} in front of a small file, in the four encodings
+const SHORT_TEXTS: u64 = 1 + 6 + 36 + 216 + 1296;
 const N_SCALARS: u64 = 0x110000;
 
 impl C10 {
@@ -95,7 +97,32 @@ impl Scenario for C10 {
     }
     fn plan(&self, seed: u64, idx: u64, tier: Tier) -> Plan {
         let sw = self.sweep_plans();
-        if idx < STRADDLE_PLANS {
+        if idx >= 40 && idx < STRADDLE_PLANS {
+            let mut k = idx - 40;
+            let alpha = ['\0', 'o', '[', '\n', '\u{E9}', '\u{4E0A}'];
+            let mut len = 0u32;
+            loop {
+                let c = 6u64.pow(len);
+                if k < c {
+                    break;
+                }
+                k -= c;
+                len += 1;
+            }
+            let mut t = String::new();
+            for _ in 0..len {
+                t.push(alpha[(k % 6) as usize]);
+                k /= 6;
+            }
+            t.push_str("su file format v9\n[Metadata]\nTitle:t\n");
+            let mut p = Plan::new("C10", "equiv", seed, idx);
+            p.data = t.into_bytes();
+            p.set("dec", (idx % 9) as i64);
+            p.set("t", crate::transport::T_SLICE);
+            p.note = "short-text".into();
+            return p;
+        }
+        if idx < 40 {
             let k = (idx % 8) as usize;
             let unit = ["\u{1F600}", "\u{E9}", "\u{4E0A}", "\u{10FFFF}\u{A0A}", "a\u{1F3FF}"][(idx / 8) as usize];
             let mut t = String::from("osu file format v14\n\n[Metadata]\nTags:");
@@ -209,6 +236,21 @@ impl Scenario for C10 {
                     }
                     if let Some(Ok(f)) = first {
                         acc ^= f.0.rotate_left(cp % 61);
+                    }
+                    // odd tails: the scalar is the last complete code unit of the file and a dangling byte follows — the
+                    // result must be that of the std lossy conversion (which drops the dangling byte only)
+                    for enc in [Enc::Utf16Le, Enc::Utf16Be] {
+                        for dangling in [0x00u8, 0x0A, 0x0D] {
+                            let mut b = encode_text(&text, enc);
+                            b.push(dangling);
+                            let got = from_bytes_fp(Dec::Metadata, &b).map_err(|e| e.kind());
+                            let mut reference = vec![0xEF, 0xBB, 0xBF];
+                            reference.extend_from_slice(model_text(&b).as_bytes());
+                            let want = from_bytes_fp(Dec::Metadata, &reference).map_err(|e| e.kind());
+                            if got != want {
+                                return Err(Violation::new(if got.is_err() { "C10/decode-error" } else { "C10/lossy-mismatch" }, sig_for(&b), format!("U+{cp:04X} as the last character of a {} file followed by the dangling byte {dangling:#04x}: {:?}, the std lossy conversion of the payload gives {:?}", enc.name(), got, want)));
+                            }
+                        }
                     }
                 }
                 st.outcome = acc;
